@@ -73,6 +73,31 @@ def run_histories(histories, timeout=3000):
     return json.loads(out.split("@@RESULT@@", 1)[1])["histories"]
 
 
+def shrink_history(steps, still_fails, max_rounds=12):
+    """Greedy one-step-at-a-time minimisation of a failing history (its LAST step is the one whose result is wrong).
+    still_fails(result_of_last_step) -> bool.  Every candidate (the history with one earlier step removed) runs in its own
+    fresh process; all candidates of a round run in parallel."""
+    steps = list(steps)
+    for _ in range(max_rounds):
+        if len(steps) <= 1:
+            break
+        cands = [steps[:i] + steps[i + 1:] for i in range(len(steps) - 1)]
+        try:
+            rs = run_histories([{"id": i, "steps": c} for i, c in enumerate(cands)])
+        except Exception:
+            break
+        hit = None
+        for c, r in zip(cands, rs):
+            st = r.get("steps", [])
+            if len(st) == len(c) and still_fails(st[-1]):
+                hit = c
+                break
+        if hit is None:
+            break
+        steps = hit
+    return steps
+
+
 def run_python(jobs, want_sig=True, nproc=None, timeout=3000):
     req = {"jobs": jobs, "signatures": want_sig, "nproc": nproc or common.NPROC}
     rc, out = common.sh([common.PY, str(common.VERIF / "tools/vt/pyside.py")], cwd=common.REPO, env=common.py_env(),
